@@ -39,6 +39,9 @@ class SimWorker(opp.BaseFunctorWorker):
         self.log.append(("begin-done", self.uid))
 
     def end(self):
+        d = self.cfg.get("end_delay", 0)
+        if d:
+            S().sleep(d, "end-delay")
         self.log.append(("end", self.uid))
 
     def __call__(self, x):
@@ -133,6 +136,7 @@ class Result:
         self.factory = None
         self.task_excs = []
         self.too_many = False
+        self.alive_at_exit = []
 
 
 def is_result_chunk(item):
@@ -157,11 +161,12 @@ def run_pool_case(case, max_steps=None):
     total_items = sum(c["n"] for c in calls)
     if max_steps is None:
         max_steps = 30000 + 4000 * total_items + 3000 * len(calls) * max(1, case["workers"])
-    sched = Sched(schedules.make_chooser(spec), SUT_FILES, max_steps=max_steps)
+    gran_op = spec.get("gran", "line") == "op"
+    sched = Sched(schedules.make_chooser(spec), SUT_FILES, max_steps=max_steps * (3 if gran_op else 1), opcodes=gran_op)
     res = Result()
     res.sched = sched
     cfg = {"begin_delay": case.get("begin_delay", 0), "slow": {int(k): v for k, v in (case.get("slow") or {}).items()},
-           "repl_begin_delay": case.get("repl_begin_delay", 0)}
+           "repl_begin_delay": case.get("repl_begin_delay", 0), "end_delay": case.get("end_delay", 0)}
     quota = case.get("quota")
     wq = parse_wq(case.get("wq", 1.0))
     rq = case.get("rq")
@@ -202,6 +207,8 @@ def run_pool_case(case, max_steps=None):
                     res.calls_done += 1
                     res.leftovers.append([(q.name, it) for q in ctx.registry for it in payload_items(q)])
             res.left_context = True
+            # the moment the pool context has been left: which worker processes (replaced ones included) are still running?
+            res.alive_at_exit = [t.name for t in sched.tasks if t.kind == "process" and not t.done]
         except core.Abort:
             raise
         except BaseException as e:  # noqa
@@ -358,6 +365,9 @@ def lifecycle_verdicts(case, res):
         over = {w: c for w, c in counts.items() if c > quota}
         if over:
             out.append(("%s/quota-exceeded" % name, "tasks %r delivered more than %d chunks" % (over, quota)))
+    if res.left_context and res.alive_at_exit:
+        out.append(("%s/worker-still-running-when-pool-context-left" % name,
+                    "the pool context was left (no join_timeout) while %r had not finished (their end() had not completed)" % (res.alive_at_exit,)))
     if isinstance(res.outcome, tuple) and res.outcome[0] == "deadlock" and res.left_context:
         out.append(("%s/%s" % (name, deadlock_sig(res)), "the pool context was left but tasks are still running: %s" % describe_deadlock(res)))
     return out
